@@ -26,6 +26,7 @@ type Ctx struct {
 	fo           map[string]*FO
 	bkCache      map[string]*bkRun
 	unclassified map[string]bool
+	ctorOnly     func(fn *types.Func) bool
 }
 
 // Property is a registered check.
@@ -228,17 +229,18 @@ func Locksets(events []*pw.Event, entry Held) []Held {
 }
 
 // funcDeclOf finds the declaration of Type.Method / Func.
-// onlyCalledFrom returns a predicate: fn is one of the allowed functions, or an unexported function all of whose in-package callers
-// (transitively, up to 3 levels) are.
+// onlyCalledFrom returns a predicate: fn is one of the allowed functions, or an unexported function all of whose in-package users
+// (callers and functions that take it as a value; transitively, up to 3 levels) are.
 func (c *Ctx) onlyCalledFrom(allowed func(name string) bool) func(fn *types.Func) bool {
 	info := c.Pkg.TypesInfo
 	callers := map[*types.Func]map[*types.Func]bool{}
 	byName := map[*types.Func]string{}
 	c.eachFuncDecl(func(fd *ast.FuncDecl, fn *types.Func) {
 		byName[fn.Origin()] = strings.TrimPrefix(pw.FuncName(fn), "cache.")
+		// every use counts: a call, a method value, a function handed over as a callback
 		ast.Inspect(fd.Body, func(x ast.Node) bool {
-			if call, ok := x.(*ast.CallExpr); ok {
-				if callee, _ := typeutil.Callee(info, call).(*types.Func); callee != nil && callee.Pkg() == c.Pkg.Types {
+			if id, isId := x.(*ast.Ident); isId {
+				if callee, _ := info.Uses[id].(*types.Func); callee != nil && callee.Pkg() == c.Pkg.Types {
 					if callers[callee.Origin()] == nil {
 						callers[callee.Origin()] = map[*types.Func]bool{}
 					}
@@ -265,6 +267,85 @@ func (c *Ctx) onlyCalledFrom(allowed func(name string) bool) func(fn *types.Func
 		return true
 	}
 	return func(fn *types.Func) bool { return ok(fn, 0) }
+}
+
+// referencedFuncs: declared functions of the package used as values (method values, function identifiers not in call position) in
+// the given bodies — e.g. a method handed over as an option callback.
+func (c *Ctx) referencedFuncs(bodies []*ast.FuncDecl) []*ast.FuncDecl {
+	info := c.Pkg.TypesInfo
+	have := map[*ast.FuncDecl]bool{}
+	for _, b := range bodies {
+		have[b] = true
+	}
+	var out []*ast.FuncDecl
+	for _, b := range bodies {
+		called := map[ast.Expr]bool{}
+		ast.Inspect(b.Body, func(x ast.Node) bool {
+			if call, ok := x.(*ast.CallExpr); ok {
+				called[ast.Unparen(call.Fun)] = true
+			}
+			return true
+		})
+		ast.Inspect(b.Body, func(x ast.Node) bool {
+			ex, ok := x.(ast.Expr)
+			if !ok || called[ex] {
+				return true
+			}
+			var obj types.Object
+			switch v := ex.(type) {
+			case *ast.SelectorExpr:
+				if s := info.Selections[v]; s != nil && s.Kind() == types.MethodVal {
+					obj = s.Obj()
+				}
+			case *ast.Ident:
+				obj = info.Uses[v]
+			}
+			fn, ok := obj.(*types.Func)
+			if !ok || fn.Pkg() != c.Pkg.Types {
+				return true
+			}
+			if fd := c.declOf(fn); fd != nil && fd.Body != nil && !have[fd] {
+				have[fd] = true
+				out = append(out, fd)
+			}
+			return true
+		})
+	}
+	return out
+}
+
+// constructionOnly: fn is a constructor or an unexported function used by constructors only (helpers, option callbacks).
+func (c *Ctx) constructionOnly() func(fn *types.Func) bool {
+	if c.ctorOnly == nil {
+		c.ctorOnly = c.onlyCalledFrom(func(name string) bool { return constructors[name] || strings.HasPrefix(name, "New") })
+	}
+	return c.ctorOnly
+}
+
+// declOf returns the declaration of a function of the package.
+func (c *Ctx) declOf(fn *types.Func) *ast.FuncDecl {
+	var out *ast.FuncDecl
+	c.eachFuncDecl(func(fd *ast.FuncDecl, f *types.Func) {
+		if f.Origin() == fn.Origin() {
+			out = fd
+		}
+	})
+	return out
+}
+
+// nodeAt returns the innermost statement of root that contains pos.
+func nodeAt(root ast.Node, pos token.Pos) ast.Node {
+	var found ast.Node
+	ast.Inspect(root, func(x ast.Node) bool {
+		if x == nil || pos < x.Pos() || pos >= x.End() {
+			return x == nil || false
+		}
+		if _, ok := x.(ast.Stmt); ok {
+			found = x
+		}
+		return true
+	})
+	return found
 }
 
 func (c *Ctx) declPos(name string) string {
@@ -435,6 +516,10 @@ func countersStartAtZero(p *pw.Path) *pw.Event {
 	for _, ev := range p.Events {
 		if ev.Kind != pw.EvAssign || ev.Obj == nil || ev.Value == nil || seen[ev.Obj] {
 			continue
+		}
+		if ev.Note == "call" {
+			seen[ev.Obj] = true
+			continue // initialised from a call's result (whatever the inlined callee computed): not a literal counter
 		}
 		if ev.Frame != nil && ev.Frame.Parent != nil {
 			continue // a local of an inlined helper: not the operation's own counter
